@@ -14,10 +14,13 @@ def main():
     wt = tempfile.mkdtemp(prefix="vwt-", dir="/tmp")
     os.rmdir(wt)
     subprocess.run(["git", "-C", "/repo", "worktree", "add", "--detach", "-q", wt, "HEAD"], check=True)
+    if os.path.exists("/repo/Cargo.lock") and not os.path.exists(os.path.join(wt, "Cargo.lock")):
+        shutil.copy("/repo/Cargo.lock", os.path.join(wt, "Cargo.lock"))   # untracked in /repo; needed offline
     fails = 0
     try:
         for m in todo:
             subprocess.run(["git", "-C", wt, "checkout", "-q", "--", "."], check=True)
+            subprocess.run(["git", "-C", wt, "reset", "-q", "--hard"], check=True)
             if "revert" in m:
                 subprocess.run(["git", "-C", wt, "revert", "--no-commit", m["revert"]], check=True, capture_output=True)
                 subprocess.run(["git", "-C", wt, "reset", "-q"], check=True)
